@@ -5,7 +5,7 @@ import ast
 import copy
 from typing import Dict, List, Optional, Set, Tuple
 
-from ..cfg import CFG, path_conditions, symbolic_block, EXIT
+from ..cfg import CFG, path_conditions, symbolic_block, symbolic_returns, EXIT
 from ..exprnorm import Poly, Rat, conj_test, norm_test, normalize
 from ..report import Run
 from ..src import AnalysisError, FuncInfo, Program, call_name, stmt_key, walk_no_nested
@@ -473,9 +473,14 @@ def _prefixes(prog: Program, run: Run) -> None:
     _extend_tree(prog, run, R)
     # responses are found through the request
     d = prog.func("DiagLayer.decode_response")
-    s = ast.unparse(d.node)
     p = d.params()
-    if f"self._find_services_for_uds({p[2]})" in s and f"self._decode({p[1]}, " in s:
+    # every returned value is self._decode(<response>, <services found for the request>)
+    rets_d = [e for _c, e, _r in symbolic_returns(d.node)]
+    if rets_d and all(
+            isinstance(e, ast.Call) and call_name(e) == "_decode" and len(e.args) == 2 and
+            ast.unparse(e.args[0]) == p[1] and isinstance(e.args[1], ast.Call) and
+            call_name(e.args[1]) == "_find_services_for_uds" and
+            [ast.unparse(a) for a in e.args[1].args] == [p[2]] for e in rets_d):
         run.ok(R, "DiagLayer.decode_response", "candidates are found through the request, the "
                "response is decoded with them", d.loc)
     else:
@@ -588,8 +593,31 @@ def _binner(prog: Program, run: Run) -> None:
         run.violation(R, C, "non-constant-skipped", "a parameter that is not a CODED-CONST does "
                       "not end the search with `None`", f.loc)
     init = ci.methods.get("__init__")
-    si = ast.unparse(init.node) if init else ""
-    if "service_groups[SID].append(service)" in si and "self.__extract_sid(service)" in si:
+    filed = False
+    if init is not None:
+        for lp_ in [l for l in walk_no_nested(init.node) if isinstance(l, ast.For) and isinstance(
+                l.target, ast.Name)]:
+            sv = lp_.target.id
+            # an append of the service to <groups>[k] where k is (a local bound to) the SID
+            # extracted from that same service
+            for x in ast.walk(lp_):
+                if isinstance(x, ast.Call) and isinstance(x.func, ast.Attribute) and \
+                        x.func.attr == "append" and [ast.unparse(a) for a in x.args] == [sv]:
+                    recv = x.func.value
+                    key = None
+                    if isinstance(recv, ast.Subscript):
+                        key = recv.slice
+                    elif isinstance(recv, ast.Call) and call_name(recv) in ("setdefault", "get") \
+                            and recv.args:
+                        key = recv.args[0]
+                    if key is None:
+                        continue
+                    k2 = common.resolve_locals(lp_, key)
+                    if isinstance(k2, ast.Call) and call_name(k2) in (
+                            "__extract_sid", "_ServiceBinner__extract_sid") and [
+                                ast.unparse(a) for a in k2.args] == [sv]:
+                        filed = True
+    if filed:
         run.ok(R, "ServiceBinner.__init__", "each service is filed under its own SID", ci.loc)
     else:
         run.violation(R, "ServiceBinner.__init__", "filing", "services are not filed under the "
